@@ -437,6 +437,11 @@ func traceBack(v ssa.Value, visit func(ssa.Value) bool, seen map[ssa.Value]bool,
 		// array backing a variadic/composite literal: follow the element stores
 		if refs := x.Referrers(); refs != nil {
 			for _, r := range *refs {
+				if st, ok := r.(*ssa.Store); ok && st.Addr == ssa.Value(x) {
+					if traceBack(st.Val, visit, seen, depth+1) {
+						return true
+					}
+				}
 				if ia, ok := r.(*ssa.IndexAddr); ok {
 					if ir := ia.Referrers(); ir != nil {
 						for _, u := range *ir {
